@@ -31,6 +31,8 @@ type HookInfo struct {
 	Endpoints []string          `json:"endpoints,omitempty"`
 	Command   []string          `json:"command"`
 	Meta      map[string]string `json:"meta,omitempty"`
+	// ExMag is the decimal order of magnitude of the remaining lifetime (only with Opts.HookTTLMagnitude)
+	ExMag int `json:"ex_magnitude,omitempty"`
 }
 
 // State is the whole visible dataset.
@@ -60,6 +62,16 @@ type Opts struct {
 	Password string
 	NoTTL    bool
 	NoHooks  bool
+	// HookTTLMagnitude also records the order of magnitude of every hook's and channel's
+	// remaining lifetime (callers choose lifetimes far from a power of ten)
+	HookTTLMagnitude bool
+}
+
+func mag(o Opts, ttl int) int {
+	if !o.HookTTLMagnitude || ttl <= 0 {
+		return 0
+	}
+	return len(fmt.Sprint(ttl))
 }
 
 // Take reads the dataset from addr.
@@ -203,10 +215,10 @@ func TakeConn(c *respc.Conn, o Opts) (*State, error) {
 				return nil, fmt.Errorf("%s *: %v %s", which, err, js)
 			}
 			for _, h := range doc.Hooks {
-				st.Hooks = append(st.Hooks, HookInfo{h.Name, h.Key, h.TTL >= 0, h.Endpoints, h.Command, h.Meta})
+				st.Hooks = append(st.Hooks, HookInfo{h.Name, h.Key, h.TTL >= 0, h.Endpoints, h.Command, h.Meta, mag(o, h.TTL)})
 			}
 			for _, h := range doc.Chans {
-				st.Chans = append(st.Chans, HookInfo{h.Name, h.Key, h.TTL >= 0, nil, h.Command, h.Meta})
+				st.Chans = append(st.Chans, HookInfo{h.Name, h.Key, h.TTL >= 0, nil, h.Command, h.Meta, mag(o, h.TTL)})
 			}
 		}
 		sort.Slice(st.Hooks, func(i, j int) bool { return st.Hooks[i].Name < st.Hooks[j].Name })
